@@ -654,10 +654,11 @@ pub fn eval_replay(args: &[String]) {
 // ---- leg T: random programs over the wide value domain ------------------------------------------------
 
 fn lit_num(rng: &mut impl Rng) -> J {
-    let d = match rng.gen_range(0..10) {
-        0..=4 => rust_decimal::Decimal::from(rng.gen_range(-20i64..50)),
-        5..=6 => rust_decimal::Decimal::from_i128_with_scale(rng.gen_range(-5000i128..5000), rng.gen_range(0..4)),
-        7 => rust_decimal::Decimal::from(rng.gen::<i64>() >> rng.gen_range(0..60)),
+    // mostly small numbers, so that programs evaluate deeply; the wide domain is exercised by the operator tables
+    let d = match rng.gen_range(0..20) {
+        0..=11 => rust_decimal::Decimal::from(rng.gen_range(-20i64..50)),
+        12..=16 => rust_decimal::Decimal::from_i128_with_scale(rng.gen_range(-5000i128..5000), rng.gen_range(0..4)),
+        17..=18 => rust_decimal::Decimal::from(rng.gen::<i64>() >> rng.gen_range(20..60)),
         _ => random_decimal(rng),
     };
     json!(["lit", dec_to_json(&d)])
@@ -677,7 +678,7 @@ struct Gen<'a, R: Rng> {
 
 impl<'a, R: Rng> Gen<'a, R> {
     fn num(&mut self, d: u32) -> J {
-        if self.rng.gen_range(0..100) < 4 {
+        if self.rng.gen_range(0..100) < 1 {
             return self.boolean(d.saturating_sub(1)); // a wrongly typed operand now and then
         }
         if d == 0 {
@@ -707,7 +708,7 @@ impl<'a, R: Rng> Gen<'a, R> {
         }
     }
     fn boolean(&mut self, d: u32) -> J {
-        if self.rng.gen_range(0..100) < 4 {
+        if self.rng.gen_range(0..100) < 1 {
             return self.num(d.saturating_sub(1));
         }
         if d == 0 {
